@@ -5,7 +5,7 @@ from vrun import Job
 SRCS = ['message/Message.cpp', 'util/String.cpp', 'util/ByteBuffer.cpp']
 NATIVE_SRCS = SRCS + ['util/StringTokenizer.cpp', 'util/Directory.cpp', 'util/FilePathInfo.cpp', 'syslog/SysLog.cpp', 'system/SetupSystem.cpp', 'system/StackTrace.cpp', 'dataio/FileDataIO.cpp',
                       'regex/StringMatcher.cpp', 'util/MiscUtilityFunctions.cpp', 'util/NetworkUtilityFunctions.cpp', 'util/SocketMultiplexer.cpp']
-COMMON = dict(srcs=SRCS, native_srcs=NATIVE_SRCS, native_defs={'VERIF_HAVE_SYSLOG': 1, 'VERIF_HAVE_SETUPSYSTEM': 1}, models=('models/base.def', 'models/message.def'), preludes=('prelude_base.h', 'prelude_wl.h'), mode='func', object_bits=12,
+COMMON = dict(srcs=SRCS, native_srcs=NATIVE_SRCS, native_defs={'VERIF_HAVE_SYSLOG': 1, 'VERIF_HAVE_SETUPSYSTEM': 1, 'VERIF_ALLOC_BUDGET': 1}, models=('models/base.def', 'models/message.def'), preludes=('prelude_wl.h', 'prelude_base.h'), mode='func', object_bits=12,
               ir2c_flags=['--split-struct-all', 'struct.muscle::String::LongStringData'], extra_clang=['-DDISABLE_OBJECT_POOLING', '-DMUSCLE_AVOID_TAGGED_POINTERS', '-fno-inline'])
 
 
@@ -30,7 +30,7 @@ def msg_jobs(tier, entries=('harness_msg_flatten', 'harness_msg_parse', 'harness
             # The round trip follows from flatten (API -> reference bytes) + parse_ref (reference bytes -> values) + parse (re-serialisation identical).
             if tier == 'quick' and entry == 'harness_msg_build': continue
             J.append(Job('%s %s' % (entry[8:], sname), 'B', 'harness/cpp/msg_wire.cpp', entry, gen_c=gen, unwind=24, loop_rules={entry: 170},
-                         unwindset={'_ZL5BuildRN6muscle7MessageEjPKh': d, '_ZL11CheckValuesRKN6muscle7MessageEjPKh': d}, family='msg/' + entry[8:], timeout=(300 if tier == 'quick' else 1200), mem_gb=8, **COMMON))
+                         unwindset={'_ZL5BuildRN6muscle7MessageEjPKh': d, '_ZL11CheckValuesRKN6muscle7MessageEjPKh': d}, family='msg/' + entry[8:], timeout=(300 if tier == 'quick' else 1200), mem_gb=3, **COMMON))
     return J
 
 
